@@ -72,7 +72,7 @@ func genTypes(r *rand.Rand, o genOpts) []TypeDecl {
 			}
 		}
 		// sometimes two of the embedded types get a func() field of the same name: a selector that is
-		// ambiguous between two FIELDS at one depth (F05-17, repaired by 43e97a5)
+		// ambiguous between two FIELDS at one depth (F05-17, repaired by f4dfaf4)
 		if o.funcFld && r.Intn(100) < 12 {
 			var embs []int
 			for _, f := range t.Fields {
